@@ -300,6 +300,9 @@ class Gen:
     def classes(self):
         out = []
         names = self.subset(CLASS_NAMES, 0, 4)
+        if names and self.r.random() < 0.2:
+            # two classes whose names contain one another, the shorter one declared later (so that it can follow)
+            names = [x for x in names if x not in ("overlay", "overlay_common")][:2] + ["overlay_common", "overlay"]
         for i, n in enumerate(names):
             c = {"name": n}
             k = self.r.random()
